@@ -60,7 +60,7 @@ def case(draw):
     dot = draw(st.sampled_from([None, None, None, "force", "fallback", "skip"]))
     if dot == "skip" and style_opt:
         style_opt = None  # mutually exclusive
-    template = draw(st.sampled_from([None, None, None, "prose", "nocontrib", "commented", "droplic", "dropcop", "dropboth", "cdroplic", "cdropcop", "cdropboth"]))
+    template = draw(st.sampled_from([None, None, None, "prose", "nocontrib", "commented", "fixedline", "droplic", "dropcop", "dropboth", "cdroplic", "cdropcop", "cdropboth"]))
     binary = draw(st.integers(0, 9)) == 0
     existing = None
     if draw(st.integers(0, 2)) == 0:
@@ -131,6 +131,9 @@ def check(ctx, c, table_walk=False):
                         ctx.label("existing:ignore-block-inside-header")
         if c.get("ignored_top") and not c["binary"] and not to_dotlicense and not existing and used_style:
             lines = ["REUSE-IgnoreStart", "SPDX-FileCopyrightText: 1999 Ignored Holder", "SPDX-License-Identifier: LicenseRef-ignored", "REUSE-IgnoreEnd"]
+            if len(name) % 2:
+                # a stray end marker first (prose that mentions it), then a block that is never closed
+                lines = ["this text mentions REUSE-IgnoreEnd", "REUSE-IgnoreStart", "SPDX-FileCopyrightText: 1999 Ignored Holder", "SPDX-License-Identifier: LicenseRef-ignored"]
             blk = S.wrap_single(used_style, lines) if S.has_single(used_style) and (c["line"] != "multi" or not S.has_multi(used_style)) else S.wrap_block(used_style, lines)
             b = c["body"] if not c["body"].startswith("#!") else "print('x')\n"
             content = "\n".join(blk) + "\n" + (b or "code();\n")
